@@ -77,7 +77,11 @@ impl Future for WaitGroupFuture {
         match self.0.upgrade() {
             None => Poll::Ready(()),
             Some(wg) => {
+                #[cfg(fastcgi_server_verif)]
+                crate::verif_hooks::point("waitgroup:upgraded");
                 wg.waker.register(cx.waker());
+                #[cfg(fastcgi_server_verif)]
+                crate::verif_hooks::point("waitgroup:registered");
                 Poll::Pending
             },
         }
